@@ -12,4 +12,4 @@ Separate Extraction
   AnalyzerG.analyzeG Analyzer.any_stops
   Oracle.sem_fallthrough_cases Syntax.no_fn_stmtb Analyzer.current
   Oracle.c10_violations Oracle.c11_getter_violation Oracle.c11_case_violations
-  Analyzer.getter_return_panics_on Oracle.c11_getter_violations_all Oracle.sem_falling_getters.
+  Analyzer.getter_return_panics_on Oracle.c11_getter_violations_all Oracle.sem_falling_getters Syntax.fn_stmt_safeb.
